@@ -206,16 +206,28 @@ class Subject:
         T.success = info.get("success")
         return self._finish(T)
 
-    def root_requiring(self, aidx):
+    def root_requiring(self, aidx, prob=None):
         """(Action object, descriptor) of flat action aidx re-built with
-        req_access=ROOT - Action objects are part of the step() interface."""
+        req_access=ROOT (and, if given, another success probability) -
+        Action objects are part of the step() interface."""
         from nasim.envs import action as A
         from nasim.envs.utils import AccessLevel
         d = dict(self.descs[aidx])
-        d["req_access"] = 2
         a = self.actions[aidx]
         k = d["kind"]
-        R = AccessLevel.ROOT
+        if prob is None:
+            d["req_access"] = 2
+            R = AccessLevel.ROOT
+        else:
+            R = AccessLevel.USER
+            d["prob"] = prob
+
+            class _P:       # the same action with another probability
+                pass
+            ap = _P()
+            ap.__dict__.update(a.__dict__)
+            ap.prob = prob
+            a = ap
         if k == "exploit":
             obj = A.Exploit(a.name, a.target, a.cost, a.service, os=a.os,
                             access=a.access, prob=a.prob, req_access=R)
